@@ -296,13 +296,26 @@ Definition reserved_start (t : str) : bool :=
       | None => false
       end).
 
+(** structural equality of doubles ([bits_of_f] does not separate unnormalised representations) *)
+Definition sf_eqb (x y : f64) : bool :=
+  match x, y with
+  | SpecFloat.S754_zero a, SpecFloat.S754_zero b => Bool.eqb a b
+  | SpecFloat.S754_infinity a, SpecFloat.S754_infinity b => Bool.eqb a b
+  | SpecFloat.S754_nan, SpecFloat.S754_nan => true
+  | SpecFloat.S754_finite a m e, SpecFloat.S754_finite b n f => Bool.eqb a b && Pos.eqb m n && Z.eqb e f
+  | _, _ => false
+  end.
+
 Definition wf_opt (f : option expr) : bool := match f with Some e => wf_expr e | None => true end.
 
 Definition wf_aggfn (f : aggfn) : bool :=
   match f with
   | FCount c => wf_opt c
   | FSum e | FMin e | FMax e | FAvg e | FDistinct e => wf_expr e
-  | FPct q e => wf_expr e && (match pct_of q with Some _ => true | None => false end)
+  | FPct q e => wf_expr e && (match pct_of q with
+                              | Some v => sf_eqb q (fdiv (f_of_Z v) (f_of_Z 100))   (* the canonical double of NN/100 *)
+                              | None => false
+                              end)
   end.
 
 Definition wf_stage (o : popts) (st : stage) : bool :=
@@ -327,6 +340,9 @@ Definition wf_stage (o : popts) (st : stage) : bool :=
 (** what follows a stage: the end of the query or, after optional whitespace, a pipe *)
 Definition stage_stop (k : str) : bool :=
   match skip_spaces k with [] => true | c :: _ => (c =? 124) end.
+(** ... a single pipe: `a||b` would continue an expression *)
+Definition single_pipe (k : str) : bool :=
+  match skip_spaces k with _ :: c :: _ => negb (c =? 124) | _ => true end.
 
 Definition plain_inline (st : stage) : bool :=
   match st with SLet _ _ | SAgg _ _ | SSort _ _ | SUnmodelled => false | _ => true end.
